@@ -134,7 +134,7 @@ def gen_case(rng, impl, max_steps):
         if impl == "ghost":
             B = rng.choice([4, 8, 11, 12, 16, 21, 32, 40])
             if rng.random() < 0.05:
-                B = rng.choice([1, 2, 3, 5, 10])     # may trip `batch_size > 10 σ0`
+                B = rng.choice([0, 1, 2, 3, 5, 10])  # may trip `batch_size > 10 σ0`
             sb = B / 20.0
         else:
             B = rng.choice([1, 2, 3, 4, 5, 8, 12, 17])
@@ -518,7 +518,23 @@ def nontrivial(case, outs):
     return False
 
 
-def run_cases(ctx, cases, variants, known):
+def ill_conditioned(case, outs, rel):
+    """some norm lies within `rel` of the bound it is compared with at a step whose bound is itself a
+    rounded quantity (any step after the first, or every step in float32): the count then depends on
+    the last bits of exp/pow and model and implementation may legitimately differ"""
+    C = case["C0"]
+    for k, o in enumerate(outs):
+        n = np.asarray(o.get("norms", []), dtype=float)
+        if len(n) and (k > 0 or rel > 1e-8):
+            slack = EPS if case["impl"] == "ada" else 0.0
+            if np.any(np.abs(n + slack - C) <= rel * max(abs(C), 1e-300)):
+                return True
+        if o["kind"] == "rel":
+            C = o["newC"]
+    return False
+
+
+def run_cases(ctx, cases, variants, known, tol=TOL, tag=""):
     reals = []
     for c in cases:
         res = run_real(c)
@@ -532,7 +548,7 @@ def run_cases(ctx, cases, variants, known):
     replies = ctx.lean_driver("C20", lines)
     for c, res, (a, n) in zip(cases, reals, spans):
         outs = res[1] if res[0] == "ok" else []
-        kind = c["impl"] + ("/engine" if c.get("via_engine") else "") + "/" + c["reduction"]
+        kind = c["impl"] + ("/engine" if c.get("via_engine") else "") + "/" + c["reduction"] + tag
         ctx.case(case_key(c, outs), nontrivial=nontrivial(c, outs), sample={k: v for k, v in c.items()}, kind=kind)
         if res[0] != "ok":
             ctx.count("construct:" + res[0])
@@ -540,13 +556,32 @@ def run_cases(ctx, cases, variants, known):
             ctx.count("step:" + o["kind"].split(":")[0] + ("" if not o["kind"].startswith("err") else ":" + o["kind"].split(":")[1]))
             if o["kind"] == "rel":
                 ctx.count("clamped" if o["newC"] in (c["cfg"]["minC"], c["cfg"]["maxC"]) else "unclamped")
-        bad = compare_case(c, res[0], outs, replies[a:a + n])
+        bad = compare_case(c, res[0], outs, replies[a:a + n], tol)
         if bad is None:
             ctx.validated()
+        elif ill_conditioned(c, outs, 1e-4 if tol > 1e-8 else 1e-9):
+            ctx.count("ill-conditioned-skipped" + tag)
         else:
             ctx.mismatch("adaclip" if c["impl"] == "ada" else "ghost-adaptive", c,
                          {"construct": res[0], "steps": [strip(o) for o in outs]}, replies[a:a + n],
                          oracle=lambda cc: oracle_first(cc, known), note=bad)
+
+
+def small_scope_cases():
+    import itertools
+    out = []
+    cfg = {"sigma": 0.05, "sigmaB": 1.0, "eta": 0.5, "gamma": 0.5, "minC": 0.25, "maxC": 3.0}
+    for impl in ("ada", "ghost"):
+        for B in (1, 2, 3):
+            for pat in itertools.product((0.5, 1.0, 2.0), repeat=B):
+                for zf in (-1.0, 0.0, None):
+                    z = 0.5 if zf is None else zf * B
+                    first = {"norms": [1.5 * f for f in pat], "z": z, "style": "basis", "skip": False}
+                    second = {"norms": [0.3, 1.2, 2.9, 0.7], "z": 0.25, "style": "dense", "skip": False}
+                    for skip in ((False, True) if impl == "ada" else (False,)):
+                        out.append({"impl": impl, "cfg": dict(cfg), "C0": 1.5, "d": 4, "reduction": "sum", "via_engine": False,
+                                    "steps": [dict(first, skip=skip), second]})
+    return out
 
 
 def run(ctx):
@@ -564,6 +599,15 @@ def run(ctx):
         for w in (W_ADA, W_GHOST, W_EMPTY, W_ACCUM):
             cases.append(w)
         run_cases(ctx, cases, variants, known)
+        if ctx.thorough:
+            small = small_scope_cases()
+            ctx.extra["exhaustive_small_scope"] = f"{len(small)} cases: both implementations, every batch of ≤3 norms over {{C/2, C (boundary), 2C}} × z ∈ {{−B, 0, ½}} (+ every skip/release split for AdaClip), followed by a second mixed batch"
+            run_cases(ctx, small, variants, known, tag="/small-scope")
+    # the configuration users actually run: default dtype float32 (count, fraction, exp in float32)
+    with rig.default_dtype(torch.float32):
+        cases32 = [gen_case(ctx.rng, "ghost" if i % 2 else "ada", 4) for i in range(ctx.n(24, 400))]
+        run_cases(ctx, cases32, variants, known, tol=2e-5, tag="/float32")
+    with rig.default_dtype(torch.float64):
         # Lean counterexample witnesses replayed on the real code (property oracle, no model)
         for w in (W_ADA, W_GHOST, W_EMPTY, W_ACCUM):
             for f in oracle_all(w):
